@@ -36,6 +36,21 @@ CLAIMED["C15"] = dict(
     design="DESIGN.md#c15",
 )
 
+CLAIMED["C20"] = dict(
+    engine="E-adt",
+    text="Lean theorems by induction over arbitrary operation histories: the ReferenceCache forest (with path "
+    "shortening, lazy partially-consumed get_references, retarget cycles, apply) refines 'assign Symbol.referent "
+    "directly' (invariant + abstraction preserved by every operation, every result equal to the specification's, "
+    "refusal only where specified); ReturnEdgeCache indices are scans of the edge set after every history; the "
+    "return-cache context always restores the caller's CFG object with the final edges and reports modification; "
+    "BlockOrdering's pointer structure represents a plain list of chains under insert/remove; OffsetMapping is a "
+    "flat (element, displacement) dictionary; IdentitySet is a set of identities. Tied by exhaustive short and "
+    "seeded long histories run on the real classes and on the compiled model. Not proved: the termination bound "
+    "(fuel) of the two tree loops — the model reports MODEL-FUEL instead of diverging, never observed.",
+    technique="Lean 4 proof (data-refinement: invariant + abstraction function/relation, induction over operation histories) + differential correspondence on histories",
+    design="DESIGN.md#c20",
+)
+
 ALL = ["C%02d" % i for i in range(1, 21)]
 
 NOT_YET = "engine designed in DESIGN.md but its model/proofs are not built yet in this revision; not claimed"
@@ -74,6 +89,7 @@ def main():
             "add_only": True,
         },
         "engines": [
+            {"name": "E-adt", "path": "lean/GtirbVerif/Model/Adt", "serves_properties": ["C20", "C09"], "kind_free_text": "Lean models of ReferenceCache, ReturnEdgeCache, make_return_cache, BlockOrdering, OffsetMapping, IdentitySet with refinement proofs"},
             {"name": "E-dwarf", "path": "lean/GtirbVerif/Model/Dwarf", "serves_properties": ["C14", "C15"], "kind_free_text": "Lean model of dwarf/_encoders,_encodable,expr,cfi,cfi_eval + regenerated tables"},
         ],
         "checks": checks,
